@@ -49,6 +49,17 @@ class tar_syncer(http_syncer, base.ExternalSyncer):
         repo_name = os.path.basename(basedir)
         self.tempdir = os.path.join(repos_dir, f".{repo_name}.update")
         self.tempdir_old = os.path.join(repos_dir, f".{repo_name}.old")
+        # recover from an interrupted sync: if the process died between moving the
+        # old repo out of the way and moving the new one into place, the old tree
+        # only exists in the staging dir -- put it back
+        try:
+            if not os.path.exists(basedir) and os.path.isdir(self.tempdir_old):
+                os.rename(self.tempdir_old, basedir)
+        except OSError as e:
+            raise base.SyncError(f"failed recovering interrupted sync: {e}") from e
+        # drop staging dirs left behind by an interrupted sync
+        shutil.rmtree(self.tempdir, ignore_errors=True)
+        shutil.rmtree(self.tempdir_old, ignore_errors=True)
         # remove tempdirs on exit
         atexit.register(partial(shutil.rmtree, self.tempdir, ignore_errors=True))
         atexit.register(partial(shutil.rmtree, self.tempdir_old, ignore_errors=True))
